@@ -4,6 +4,11 @@ TB = ("Trusted: Coq 8.16.1 kernel + vm_compute (no native_compute, no axioms: ev
       "the hand-written Gallina model, tied to /repo only by the correspondence check of each run (sampled behaviours); the Go harness (generators, oracles) ")
 SRV = ("; the server model (Model/Server.v: evaluatePushPullCase, processSubscribeOrCreate, push/pull/commit over an abstract document store) and the client protocol model (Model/Wire.v) are replayed on every run against the real OrdaService running in process over an in-memory MongoDB/MQTT stand-in and real clients: every request, response, store state and publish must coincide")
 TEXTS = {
+ "C10": {
+  "text": "Theorems over the marshalled snapshot forms (Model/Snapshot.v): for counter and list unmarshal(marshal s) = s exactly (tombstones, update and order timestamps, Size), so every continuation is answered identically; for the map the restored state has the same entry under every key and the same Size, that relation is a congruence for every later remote and local operation (same emitted operation, same returned value), gives the same JSON view, and re-exporting yields the same snapshot (sorting is proved canonical). On every run the snapshot and metadata exported by a real replica after a random multi-replica history are compared field by field with the model's marshalled form, imported into a fresh real instance, re-exported, and original and restored instance are driven side by side with further remote operations.",
+  "note": TB + "; Document snapshots (node table, cemetery) are not modelled yet; encoding/json itself is exercised, not modelled.",
+  "technique": "Coq proof (round trip, congruence, canonical sorting) + in-Coq comparison of real marshalled snapshots + side-by-side continuation oracle",
+ },
  "C03": {
   "text": "Theorems: a call failing validation, or rejected by the datatype, returns an error and leaves the entire datatype (readable state, next id, pending operations, checkpoint, rollback point) exactly as it was — generic in the datatype; the counter is a wrapped 32-bit integer; map Put/Remove act on the key and return the old value like a plain map (Remove of an absent key is an error that changes nothing); list Insert/Delete/Update never dereference nil, transform the sequence of readable values exactly like the slice operation, return what it returns, and keep Size equal to the number of readable values. On every run one real replica is driven with valid and invalid calls and reads and compared call by call with the plain Go structure AND with the model.",
   "note": TB + "; Document (JSON tree, child documents, null values, wrong container kind) is not modelled yet — its C03 part is not claimed.",
